@@ -2,6 +2,7 @@ package main
 
 import (
 	"context"
+	"io"
 	"math"
 	"reflect"
 	"runtime"
@@ -109,10 +110,17 @@ func (c *ctx) c16sequence(maxLen int) []c16cmd {
 	return out
 }
 
+// c16trickle: when > 0 both sides read at most that many bytes at a time (buffered link only)
+var c16trickle int
+
 func (c *ctx) c16run(cmds []c16cmd, ntx int, buffered bool) {
 	ce, ee := link(buffered)
-	emu := xsensemulator.NewEmulator(ee)
-	cl := xsens.NewClient(ce)
+	var emuPort, clPort io.ReadWriteCloser = ee, ce
+	if c16trickle > 0 && buffered {
+		emuPort, clPort = &trickleEnd{ee, c16trickle}, &trickleEnd{ce, c16trickle}
+	}
+	emu := xsensemulator.NewEmulator(emuPort)
+	cl := xsens.NewClient(clPort)
 	ctxb, cancel := context.WithCancel(context.Background())
 	done := make(chan struct{})
 	go func() { _ = emu.Receive(ctxb); close(done) }()
@@ -334,6 +342,17 @@ func init() {
 		run([]c16cmd{{kind: 0}, {kind: 1, cfg: cfg}, {kind: 2}, {kind: 0}, {kind: 1, cfg: cfg}, {kind: 2}}, 5)
 		run([]c16cmd{{kind: 2}, {kind: 2}, {kind: 0}, {kind: 0}}, 3)
 		run([]c16cmd{{kind: 2}}, 4) // measuring with an empty configuration: everything refused
+		// reads of 1, 2, 3 and 5 bytes on both sides (every read boundary inside every frame), and a burst the emulator
+		// sends while the client is not yet reading (boundaries where the scanner's buffer fills up)
+		for _, tr := range []int{1, 2, 3, 5} {
+			c16trickle = tr
+			old := runtime.GOMAXPROCS(procs[c.rng.Intn(len(procs))])
+			c.c16run(work(2+c.rng.Intn(4)), 6, true)
+			c.c16run(append(work(3), c16cmd{kind: 0}, c16cmd{kind: 1, cfg: c.randomConfig(2)}, c16cmd{kind: 2}), 4, true)
+			runtime.GOMAXPROCS(old)
+		}
+		c16trickle = 0
+		c.c16run(work(1), c.pick(400, 1200), true)
 		// random sequences
 		for k := 0; k < c.pick(40, 400); k++ {
 			run(c.c16sequence(c.pick(12, 50)), c.rng.Intn(10))
